@@ -1108,7 +1108,12 @@ class SpectrumResult:
             for d in self._data["D"]:
                 arr = np.asarray(d, dtype=np.int64)
                 D_list.append(arr)
-            self._data["D"] = np.array(D_list, dtype=object)
+            # Always a 1-D object array with one start array per bin; np.array()
+            # would build a 2-D array when every bin has the same number of starts.
+            D_arr = np.empty(len(D_list), dtype=object)
+            for k, arr in enumerate(D_list):
+                D_arr[k] = arr
+            self._data["D"] = D_arr
 
         # Convenience: number of frequency bins
         self.nf = int(self._data.get("f", np.array([])).shape[0])
